@@ -109,9 +109,9 @@ fn c03_case(ctx: &mut Ctx, rng: &mut Rng, i: u64) {
     let cap = *rng.pick(&[4096i64, 65536, 65536, 16384]);
     let tiny = rng.chance(200); // limit 1 only with little output (one poll+read per byte)
     let both = rng.chance(750);
-    let (n1, n2) = if tiny { (rng.range(0, 3000), rng.range(0, 1000)) } else { (comm::size_near(rng, cap as u64) + rng.range(0, 100_000), comm::size_near(rng, cap as u64)) };
-    let piped_in = rng.chance(400);
-    let input_len = if piped_in { comm::size_near(rng, cap as u64) + if rng.chance(300) { 200_000 } else { 0 } } else { 0 };
+    let (mut n1, mut n2) = if tiny { (rng.range(0, 3000), rng.range(0, 1000)) } else { (comm::size_near(rng, cap as u64) + rng.range(0, 100_000), comm::size_near(rng, cap as u64)) };
+    let mut piped_in = rng.chance(400);
+    let mut input_len = if piped_in { comm::size_near(rng, cap as u64) + if rng.chance(300) { 200_000 } else { 0 } } else { 0 };
     let seed = rng.next() >> 1;
     // child behaviour: interleaved bursts on both streams, delays so that reads happen while it is still producing
     let mut ops: Vec<String> = vec![];
@@ -138,12 +138,35 @@ fn c03_case(ctx: &mut Ctx, rng: &mut Rng, i: u64) {
     }
     ops.push("x0".into());
     // limits
-    let total = n1 + if both { n2 } else { 0 };
+    let mut total = n1 + if both { n2 } else { 0 };
     let choices: Vec<usize> = if tiny { vec![1, 2, 3, 4095, 7] } else { vec![2, 4095, 4096, 4097, cap as usize - 1, cap as usize, cap as usize + 1, 100, 1 << 20, total as usize + 10, 50_000] };
     let mut chain = vec![];
     let mut budget: u64 = 0;
-    let constant = rng.chance(300);
+    let mut constant = rng.chance(300);
     let c0 = *rng.pick(&choices);
+    // one case in seven (of those with two streams): one stream delivers less than the limit and ends; only after the
+    // parent has seen that does the other one start, with several times the limit.  The bytes of the stream that has
+    // ended count towards the limit of the read like any others
+    let ends_below = !tiny && both && c0 >= 2 && rng.chance(150);
+    if ends_below {
+        let a = rng.range(1, 2);
+        let b = 3 - a;
+        let k = rng.range(1, (c0 as u64 - 1).min(60_000));
+        let m = (c0 as u64).min(200_000) * rng.range(2, 4) + rng.range(0, 5000);
+        ops = vec![format!("w{}:{}:{}", a, k, k), format!("c{}", a), format!("s{}", rng.range(15, 40)), format!("w{}:{}:{}", b, m, comm::chunk(rng)), "x0".into()];
+        if a == 1 {
+            n1 = k;
+            n2 = m;
+        } else {
+            n1 = m;
+            n2 = k;
+        }
+        piped_in = false;
+        input_len = 0;
+        total = n1 + n2;
+        constant = true;
+        ctx.count("chains_where_one_stream_ends_below_the_limit_before_the_other_starts", 1);
+    }
     // some chains also carry (real, short) time limits: a read that times out short of its size limit must be resumable
     let with_time = rng.chance(250);
     while budget < total + 10 && chain.len() < 20_000 {
